@@ -7,7 +7,8 @@ rows=[]
 # their seedres files were overwritten by the re-run, so the earlier result is recorded here
 FIRST_MISSED={'C18r6-2':'C18','C10r6-3':'C10','C17r6-2':'C17','C12r6-2':'C12','C03r6-3':'C03','C04r6-2':'C04',
  'C18r7-1':'C18','C18r7-3':'C18','C06r7-2':'C06','C20r7-3':'C20','C13r7-3':'C13','C12r7-2':'C12','C15r7-2':'C15','C16r7-3':'C16',
- 'C11r8-1':'C11','C11r8-3':'C11','C12r8-3':'C12','C14r8-1':'C14','C18r8-3':'C18','C20r8-1':'C20','C10r8-3':'C10','C06r8-3':'C06','C04r8-2':'C04','C03r8-2':'C03'}
+ 'C11r8-1':'C11','C11r8-3':'C11','C12r8-3':'C12','C14r8-1':'C14','C18r8-3':'C18','C20r8-1':'C20','C10r8-3':'C10','C06r8-3':'C06','C04r8-2':'C04','C03r8-2':'C03',
+ 'C09r9-2':'C09','C18r9-1':'C18','C18r9-2':'C18','C06r9-1':'C06'}
 # changes that were confirmed as patches but judged not to break the property as stated (DESIGN.md §8.3)
 DISPOSITION={
  'C18r8-1': 'outside the property as stated - an out-of-range float literal may read as infinity or as the default (the getter oracle has accepted both from the start, DESIGN.md 8.6 round 8)',
